@@ -15,6 +15,17 @@ def replay(prop: str, path: str) -> int:
                 print("  ", f.clause, "|", f.kind)
             return 1 if r.status == "failed" else (0 if r.status == "proved" else 2)
         from . import native
+        if doc.get("backend") == "kani":
+            import subprocess
+            binp = native.build(run)
+            cex = doc.get("counterexample", {})
+            if not binp or "replay_cmd" not in cex:
+                print("no concrete values recorded; re-run the check")
+                return 2
+            args = cex["replay_cmd"].split()[1:]
+            p = subprocess.run([binp] + args, capture_output=True, text=True)
+            print(p.stdout)
+            return 1 if '"reproduced":true' in p.stdout.replace(" ", "") else 0
         return native.replay(run, doc)
     finally:
         run.cleanup()
